@@ -409,6 +409,10 @@ def body(ctx):
                         "softyes:" + key, head + tb + "\n" + code.format(neg=""), "accept", None,
                         dict(op=nm, desc="trait question must answer 'yes' for twin %s: %s A=%s" % (tb, nm, ea))))
 
+    # the dimension classes above are read out of the library's own types: tie them to something
+    # outside it (the nine aliases are nine different base dimensions; each base unit measures its own)
+    items.append(witness.Item("anchor:dimensions", atoms.anchor_code(units), "accept", None,
+                              dict(op="anchor", desc="the nine dimension aliases are the nine base dimensions, and each base unit measures its own")))
     all_ops = [o[0] for o in Q_OPS + P_OPS] + [s[0] for s in SOFT]
     zero = [o for o in all_ops if op_instances.get(o, 0) == 0]
     ctx.require(not zero, "operations with zero instances: %s" % zero)
